@@ -4,7 +4,7 @@ import ast
 from ..core.model import AnchorError
 from ..core.cfg import walk_shallow, cfg_of
 from ..core.facts import U
-from ..engine import argn, fn_name, kwarg, local_defs, returns_of, stmts_in
+from ..engine import clone, argn, fn_name, kwarg, local_defs, returns_of, stmts_in
 from ..kinds import parity
 
 EXPLANATION = (
@@ -69,7 +69,7 @@ def _dual_even_offset(amin, amax, evens=()):
                     isinstance(n.right, ast.Attribute) and isinstance(n.right.value, ast.Name) and n.right.value.id == "self")):
                 n.op = ast.Sub() if isinstance(n.op, ast.Add) else ast.Add()
             return n
-    a2 = [T().visit(copy.deepcopy(x)) for x in (amin if isinstance(amin, list) else [amin])]
+    a2 = [T().visit(clone(x)) for x in (amin if isinstance(amin, list) else [amin])]
     for x in a2:
         ast.fix_missing_locations(x)
     return parity.arms_are_dual(a2, amax if isinstance(amax, list) else [amax], odd=lambda s: False)
@@ -84,7 +84,7 @@ def _neg_consts_equal(a, b):
             if isinstance(n.value, (int, float)) and not isinstance(n.value, bool) and n.value != 0:
                 return ast.UnaryOp(op=ast.USub(), operand=n)
             return n
-    x = N().visit(copy.deepcopy(a))
+    x = N().visit(clone(a))
     ast.fix_missing_locations(x)
     return parity.norm_text(x) == parity.norm_text(b)
 
@@ -300,6 +300,25 @@ def classify(ctx, f, node):
             return "q/1-q", True, U(par)
         if U(amin).replace(" ", "") == f"1-{U(amax)}".replace(" ", ""):
             return "q/1-q", True, U(par)
+        if not _dual_arms(amin, amax, f):
+            # one half of a switch written as two conditional expressions on the same test (left = .. if m else ..; g = .. if m else ..)
+            st = getattr(par, "_parent", None)
+            holder = getattr(st, "_parent", None)
+            if isinstance(st, ast.Assign) and st.value is par and holder is not None:
+                for fld in ("body", "orelse", "finalbody"):
+                    sib = getattr(holder, fld, None)
+                    if isinstance(sib, list) and st in sib:
+                        i_ = sib.index(st)
+                        for j_ in (i_ - 1, i_ + 1):
+                            if 0 <= j_ < len(sib) and isinstance(sib[j_], ast.Assign) and isinstance(sib[j_].value, ast.IfExp) \
+                                    and U(sib[j_].value.test) == U(par.test):
+                                pair = [sib[min(i_, j_)], sib[max(i_, j_)]]
+                                sel = (lambda ie: ie.body) if m == "min" else (lambda ie: ie.orelse)
+                                oth = (lambda ie: ie.orelse) if m == "min" else (lambda ie: ie.body)
+                                a2 = [ast.Assign(targets=s_.targets, value=sel(s_.value)) for s_ in pair]
+                                b2 = [ast.Assign(targets=s_.targets, value=oth(s_.value)) for s_ in pair]
+                                if _window_dual(a2, b2):
+                                    return "window-dual", True, "left = i-1, g = f  <->  left = n-i-1, g = 1-f (two conditional expressions)"
         return "dual-arms", _dual_arms(amin, amax, f), U(par)[:90]
     if isinstance(par, ast.BinOp):
         # 1 - 2 * (mode == "min") and relatives: find the enclosing arithmetic expression
@@ -330,6 +349,11 @@ def classify(ctx, f, node):
             return "SIGN", ok, f"{U(amin[0].targets[0])} = {a} (min) / {b} (max)"
         if [U(x) for x in amin] == [U(x) for x in amax]:
             return "dual-arms", False, "both arms are identical, the mode test has no effect (nothing is mirrored)"
+        if len(amin) == 1 and len(amax) == 1 and isinstance(amin[0], ast.Assign) and isinstance(amax[0], ast.Assign) \
+                and U(amin[0].targets[0]) == U(amax[0].targets[0]):
+            va, vb = U(amin[0].value).replace(" ", ""), U(amax[0].value).replace(" ", "")
+            if vb == f"1-{va}" or va == f"1-{vb}":
+                return "q/1-q", True, f"{U(amin[0].targets[0])} = {U(amin[0].value)} (min) / {U(amax[0].value)} (max)"
         if _window_dual(amin, amax):
             return "window-dual", True, "left = i-1, g = f  <->  left = n-i-1, g = 1-f"
         if _range_reversal(amin, amax):
@@ -428,7 +452,7 @@ def run(ctx, rep, tier="quick"):
     _SPEC.clear()
     for f, node in sites(ctx, FILES):
         shape, ok, detail = classify(ctx, f, node)
-        if (shape is None or (not ok and shape in ("dual-arms", "q/1-q", "window-dual", "SIGN"))) and _mirror_when_specialised(f):
+        if shape is None and _mirror_when_specialised(f):
             # the construct is written in a way the shape table does not know (a conditional expression where it knows the
             # statement, two switches where it knows one, ...): the function as a whole, with the mode fixed either way, decides
             shape, ok, detail = "specialised", True, "the function specialised to 'min' and to 'max' are mirror images"
